@@ -1,0 +1,15 @@
+//go:build !verif
+
+package starlark
+
+import "go.starlark.net/internal/compile"
+
+// Verification hooks (see verif_on.go). With the "verif" build tag off
+// these are constant-false guards and empty functions: no code is added
+// to the shipped build.
+
+const verifEnabled = false
+
+func verifYield(*Thread)                    {}
+func verifExec(*Thread, compile.Opcode)     {}
+func verifHashString(string) (uint32, bool) { return 0, false }
